@@ -4,6 +4,8 @@ use crate::run::{Ctx, Failure, Stats};
 use serde_json::Value;
 
 pub mod c05;
+pub mod c06;
+pub mod c20;
 
 pub struct PropDef {
     pub id: &'static str,
@@ -15,6 +17,8 @@ pub struct PropDef {
 pub fn all() -> Vec<PropDef> {
     vec![
         PropDef { id: "C05", level: "exploration", run: c05::run, replay: c05::replay },
+        PropDef { id: "C06", level: "exploration", run: c06::run, replay: c06::replay },
+        PropDef { id: "C20", level: "exploration", run: c20::run, replay: c20::replay },
     ]
 }
 
